@@ -39,6 +39,7 @@ const (
 	kRefresh
 	kConflict
 	kClean
+	kDefend // NameChallenger.DefendName for the name: a reader of the table like Query, through the library's own responder
 )
 
 type op struct {
@@ -49,7 +50,7 @@ type op struct {
 	past bool
 }
 
-var addrs = []net.IP{{10, 0, 0, 1}, net.ParseIP("10.0.0.1"), {10, 0, 0, 2}, {10, 0, 0, 3}}
+var addrs = []net.IP{{10, 0, 0, 1}, net.ParseIP("10.0.0.1"), {10, 0, 0, 2}, {10, 0, 0, 3}, {0, 0, 0, 0}}
 
 func canon(ip net.IP) string { return string(ip.To16()) }
 func showIP(s string) string { return net.IP([]byte(s)).String() }
@@ -72,6 +73,8 @@ func (o op) String() string {
 		return fmt.Sprintf("Refresh(%s,%s)", o.name, a)
 	case kConflict:
 		return fmt.Sprintf("MarkConflict(%s)", o.name)
+	case kDefend:
+		return fmt.Sprintf("DefendName(%s)", o.name)
 	}
 	return "CleanExpired()"
 }
@@ -121,6 +124,23 @@ func apply(t *nbtns.NetBIOSNameServer, o op) result {
 		return result{err: t.RefreshName(o.name, addrs[o.addr]) != nil}
 	case kConflict:
 		return result{err: t.MarkNameConflict(o.name) != nil}
+	case kDefend:
+		req := &nbtns.NBTNSPacket{Header: nbtns.NBTNSHeader{TransactionID: 1, Flags: nbtns.OpNameQuery, Questions: 1},
+			Questions: []nbtns.NBTNSQuestion{{Name: &nbtns.NetBIOSName{Name: o.name}, Type: 0x20, Class: 1}}}
+		resp := &nbtns.NBTNSPacket{}
+		nbtns.NewNameChallenger(t, nil).DefendName(req, resp)
+		if len(resp.Answers) == 0 {
+			return result{err: true}
+		}
+		r := result{typ: nbtns.Unique, owners: []string{}}
+		if resp.Header.Flags&0x0080 != 0 {
+			r.typ = nbtns.Group
+		}
+		for _, a := range resp.Answers {
+			r.raw = append(r.raw, net.IP(a.RData))
+			r.owners = append(r.owners, canon(net.IP(a.RData)))
+		}
+		return r
 	}
 	t.CleanExpiredNames()
 	return result{}
@@ -327,7 +347,7 @@ func (g *ghost) update(o op, res result, t *nbtns.NetBIOSNameServer, chk checker
 				delete(g.recs, n)
 			}
 		}
-	case kQuery:
+	case kQuery, kDefend:
 		g.checkQuery(o.name, res, chk, w)
 	}
 }
@@ -368,10 +388,18 @@ func (g *ghost) checkQuery(name string, res result, chk checker, w func(string) 
 }
 
 func buildOps(names []string, nAddr int) []op {
+	idx := make([]int, nAddr)
+	for i := range idx {
+		idx[i] = i
+	}
+	return buildOpsAddrs(names, idx)
+}
+
+func buildOpsAddrs(names []string, addrIdx []int) []op {
 	var ops []op
 	for _, n := range names {
 		for _, ty := range []nbtns.NameType{nbtns.Unique, nbtns.Group} {
-			for a := 0; a < nAddr; a++ {
+			for _, a := range addrIdx {
 				for _, past := range []bool{false, true} {
 					ops = append(ops, op{k: kReg, name: n, typ: ty, addr: a, past: past})
 				}
@@ -379,15 +407,15 @@ func buildOps(names []string, nAddr int) []op {
 		}
 	}
 	for _, n := range names {
-		ops = append(ops, op{k: kQuery, name: n})
+		ops = append(ops, op{k: kQuery, name: n}, op{k: kDefend, name: n})
 	}
 	for _, n := range names {
-		for a := 0; a < nAddr; a++ {
+		for _, a := range addrIdx {
 			ops = append(ops, op{k: kRelease, name: n, addr: a})
 		}
 	}
 	for _, n := range names {
-		for a := 0; a < nAddr; a++ {
+		for _, a := range addrIdx {
 			ops = append(ops, op{k: kRefresh, name: n, addr: a})
 		}
 	}
@@ -435,7 +463,10 @@ func sequentialCapped(c *vf.Ctx, names []string, nAddr int, maxStates int, tag s
 }
 
 func sequentialN(c *vf.Ctx, names []string, nAddr int, depth2 bool, tag string, maxStates int, wantFix bool) {
-	ops := buildOps(names, nAddr)
+	sequentialOps(c, names, buildOps(names, nAddr), nAddr, depth2, tag, maxStates, wantFix)
+}
+
+func sequentialOps(c *vf.Ctx, names []string, ops []op, nAddr int, depth2 bool, tag string, maxStates int, wantFix bool) {
 	chk := checker(func(key string, ok bool, w func() string) { c.Check(key, ok, w) })
 	build := func(path []int) (*nbtns.NetBIOSNameServer, *ghost) {
 		t := nbtns.NewNetBIOSNameServer(false)
@@ -917,6 +948,9 @@ func run(c *vf.Ctx) {
 	}
 
 	t0 := time.Now()
+	// one name, three addresses one of which is the unspecified address 0.0.0.0 (a member "without an address"
+	// is a member like any other to the table), with the library's responder among the readers
+	sequentialOps(c, []string{"A"}, buildOpsAddrs([]string{"A"}, []int{4, 0, 2}), 3, false, "1name-unspecified-address", 3_000_000, true)
 	sequential(c, []string{"A", "B"}, 3, c.Thorough(), "2names")
 	c.Set("wall_bfs_s", time.Since(t0).Seconds())
 	if c.Thorough() {
